@@ -304,6 +304,38 @@ def r20_9(chk, P):
     return len(succ_rets)
 
 
+def r20_10(chk, P):
+    chk.rule('R20.10', 'a refused half-rate request has not touched the decoder: the returns of ov_halfrate that report the refusal of a '
+             'link (negative constant, control-dependent on the result of the call that applies the flag) are reached only on paths '
+             'on which the decode machine has not been dumped -- no vorbis_dsp_clear / vorbis_block_clear on the handle and no '
+             'store to ready_state or pcm_offset (K2 path flags).  The roll-back only resets the flags; a decoder dumped before the '
+             'refusal is never rebuilt at the old position, so the audio after the refused call no longer matches the position')
+    F = P.need('ov_halfrate')
+    setcalls, units = _flag_appliers(P, F)
+    chk.require(setcalls, 'ov_halfrate no longer applies its flag through vorbis_synthesis_halfrate')
+    dump = k2.any_of(k2.is_call_any(['vorbis_dsp_clear', 'vorbis_block_clear', '_decode_clear']),
+                     k2.stores_field(VF, 'ready_state', ops=None), k2.stores_field(VF, 'pcm_offset', ops=None))
+    A, h = k2.analyse(P, F, [('dumped', dump, True)])
+    refusal = set()
+    for n_ in F.pos:
+        if F.ex[n_]['k'] != 'ret':
+            continue
+        for (c, pol) in common.controlling_conditions(F, n_):
+            if pol and any(x in setcalls for x in F.walk(c)):
+                refusal.add(n_)
+    chk.require(refusal, 'no return under the refusal test found in ov_halfrate')
+    per = {}
+    for (e, fl, v, env) in k2.ret_value_classes(A):
+        if e in refusal:
+            per[e] = per.get(e, False) or ('dumped' in fl)
+    for i, e in enumerate(sorted(per, key=lambda x: F.ex[x]['loc'])):
+        chk.ob('R20.10', F.name, f'refusal-leaves-the-decoder-alone#{i}', not per[e], F.where(e),
+               'no decoder dump on any path to this refusal' if not per[e] else
+               'the decode machine is dumped (or the position / state stored) on a path to this refusal: the handle is left without a '
+               'decoder in the middle of a page and is not re-seeked')
+    return len(per)
+
+
 def run(chk, P):
     E = getattr(P, '_effects', None) or k3.Effects(P)
     P._effects = E
@@ -327,6 +359,8 @@ def run(chk, P):
     chk.floor('R20.8', 1)
     r20_9(chk, P)
     chk.floor('R20.9', 1)
+    r20_10(chk, P)
+    chk.floor('R20.10', 1)
     chk.trusted += ['clang 14 front end', 'call graph', 'K4 intervals with symbolic bounds']
     return ('Units-of-measure typing separates stream samples from decoder-output samples and requires the half-rate shift at '
             'every crossing; path and order rules decide that a refused toggle changes nothing, rolls back all links, and that '
